@@ -607,7 +607,62 @@ static inline uint64_t fnv(const std::string &s)
 	return h ^ (s.size() * 0x9e3779b97f4a7c15ULL);
 }
 
-struct Mutation { std::string id, cls, data; };
+// A mutated input is described as a list of pieces (ranges of the seed and literals); its content hash is computed from
+// prefix hashes of the seed without building the string, and the string itself is built only for the cases a shard runs.
+struct Piece { bool lit; size_t a, b; std::string s; };
+struct Mutation {
+	std::string id, cls;
+	const std::string *seed;
+	std::vector<Piece> pieces;
+	std::string ready;          // used when pieces is empty and have_ready is set
+	bool have_ready;
+	Mutation() : seed(NULL), have_ready(false) {}
+	std::string data() const
+	{
+		if (have_ready) return ready;
+		std::string o;
+		size_t n = 0;
+		for (size_t i = 0; i < pieces.size(); i++) n += pieces[i].lit ? pieces[i].s.size() : pieces[i].b - pieces[i].a;
+		o.reserve(n);
+		for (size_t i = 0; i < pieces.size(); i++)
+			if (pieces[i].lit) o += pieces[i].s; else o.append(*seed, pieces[i].a, pieces[i].b - pieces[i].a);
+		return o;
+	}
+};
+
+struct SeedHash {
+	static const uint64_t B = 0x9E3779B97F4A7C15ULL;
+	const std::string &s;
+	std::vector<uint64_t> P, W;
+	explicit SeedHash(const std::string &seed) : s(seed), P(seed.size() + 1), W(seed.size() + 1)
+	{
+		P[0] = 0, W[0] = 1;
+		for (size_t i = 0; i < seed.size(); i++)
+			P[i + 1] = P[i] * B + (unsigned char)seed[i] + 1, W[i + 1] = W[i] * B;
+	}
+	uint64_t range(size_t a, size_t b) const { return P[b] - P[a] * W[b - a]; }
+	static uint64_t of(const std::string &x) { uint64_t h = 0; for (size_t i = 0; i < x.size(); i++) h = h * B + (unsigned char)x[i] + 1; return h; }
+	uint64_t hash(const std::vector<Piece> &pc) const
+	{
+		uint64_t h = 0;
+		size_t n = 0;
+		for (size_t i = 0; i < pc.size(); i++)
+		{
+			if (pc[i].lit) { for (size_t k = 0; k < pc[i].s.size(); k++) h = h * B + (unsigned char)pc[i].s[k] + 1; n += pc[i].s.size(); }
+			else { h = h * W[pc[i].b - pc[i].a] + range(pc[i].a, pc[i].b); n += pc[i].b - pc[i].a; }
+		}
+		return h ^ (n * 0xff51afd7ed558ccdULL);
+	}
+	uint64_t whole() const { return range(0, s.size()) ^ (s.size() * 0xff51afd7ed558ccdULL); }
+	static uint64_t hash_ready(const std::string &x) { return of(x) ^ (x.size() * 0xff51afd7ed558ccdULL); }
+};
+
+// piece list builder
+struct PL {
+	std::vector<Piece> v;
+	PL &r(size_t a, size_t b) { if (b > a) { Piece p; p.lit = false, p.a = a, p.b = b; v.push_back(p); } return *this; }
+	PL &l(const std::string &x) { if (!x.empty()) { Piece p; p.lit = true, p.a = p.b = 0, p.s = x; v.push_back(p); } return *this; }
+};
 
 struct Field { size_t beg, len; char delim; };   // delim: character following the field, 0 at end of input
 
@@ -690,18 +745,21 @@ struct Catalogue {
 	// enumerate all mutations of `seed` (text), calling f(mutation) for each distinct mutated content
 	void text(const std::string &seed, const std::function<void(const Mutation &)> &f, const std::string &delims = "\n|^") const
 	{
+		SeedHash H(seed);
 		std::unordered_set<uint64_t> seen;
-		seen.insert(fnv(seed));
+		seen.insert(H.whole());
 		Mutation m;
-		auto emit = [&](const std::string &id, const std::string &cls, const std::string &data) {
-			if (!seen.insert(fnv(data)).second) return;
-			m.id = id, m.cls = cls, m.data = data;
+		m.seed = &seed;
+		const size_t N = seed.size();
+		auto emit = [&](const std::string &id, const std::string &cls, const PL &pl) {
+			if (!seen.insert(H.hash(pl.v)).second) return;
+			m.id = id, m.cls = cls, m.pieces = pl.v;
 			f(m);
 		};
 		// whole-input classes
-		emit("w:empty", "empty-input", "");
-		emit("w:nl", "empty-input", "\n");
-		emit("w:dup", "dup-input", seed + seed);
+		emit("w:empty", "empty-input", PL());
+		emit("w:nl", "empty-input", PL().l("\n"));
+		emit("w:dup", "dup-input", PL().r(0, N).r(0, N));
 		// field level, at three granularities: flat fields, '^'-groups, lines
 		const char *gran[] = { NULL, "\n^", "\n" };
 		for (int g = 0; g < 3; g++)
@@ -718,38 +776,36 @@ struct Catalogue {
 			for (size_t i = 0; i < F.size(); i++)
 			{
 				const Field &x = F[i];
-				size_t end = x.beg + x.len + (x.delim ? 1 : 0);
-				std::string pre = seed.substr(0, x.beg), self = seed.substr(x.beg, end - x.beg), post = seed.substr(end);
+				size_t beg = x.beg, fend = x.beg + x.len, end = fend + (x.delim ? 1 : 0);
 				std::string fid = std::string(gn) + drv::str(i);
-				emit(fid + ":del", "delete", pre + post);
-				emit(fid + ":dup", "duplicate", pre + self + self + post);
+				emit(fid + ":del", "delete", PL().r(0, beg).r(end, N));
+				emit(fid + ":dup", "duplicate", PL().r(0, end).r(beg, N));
 				if (thorough && i + 1 < F.size())
 				{
 					const Field &y = F[i + 1];
 					size_t yend = y.beg + y.len + (y.delim ? 1 : 0);
-					std::string ys = seed.substr(y.beg, yend - y.beg);
 					if (x.delim && y.delim)
-						emit(fid + ":swap", "swap", pre + ys + self + seed.substr(yend));
+						emit(fid + ":swap", "swap", PL().r(0, beg).r(y.beg, yend).r(beg, end).r(yend, N));
 				}
-				emit(fid + ":trunc", "truncate", pre);
+				emit(fid + ":trunc", "truncate", PL().r(0, beg));
 				if (thorough)
 				{
-					emit(fid + ":trunc+", "truncate", seed.substr(0, x.beg + (x.len ? 1 : 0)));
-					emit(fid + ":eofnodelim", "truncate", seed.substr(0, x.beg + x.len));
+					emit(fid + ":trunc+", "truncate", PL().r(0, beg + (x.len ? 1 : 0)));
+					emit(fid + ":eofnodelim", "truncate", PL().r(0, fend));
 				}
 				if (g > 0)
 					continue;
-				std::string field = seed.substr(x.beg, x.len), dl = x.delim ? std::string(1, x.delim) : "";
+				std::string field = seed.substr(beg, x.len);
 				std::vector<std::pair<std::string, std::string> > V = values(field);
 				for (size_t k = 0; k < V.size(); k++)
-					emit(fid + ":" + V[k].first, V[k].first, pre + V[k].second + dl + post);
+					emit(fid + ":" + V[k].first, V[k].first, PL().r(0, beg).l(V[k].second).r(fend, N));
 				// the delimiter itself
 				if (x.delim)
 				{
-					emit(fid + ":nodelim", "delimiter", pre + field + post);
+					emit(fid + ":nodelim", "delimiter", PL().r(0, fend).r(end, N));
 					for (size_t d = 0; thorough && d < delims.size(); d++)
 						if (delims[d] != x.delim)
-							emit(fid + ":delim" + drv::str(d), "delimiter", pre + field + std::string(1, delims[d]) + post);
+							emit(fid + ":delim" + drv::str(d), "delimiter", PL().r(0, fend).l(std::string(1, delims[d])).r(end, N));
 				}
 			}
 		}
@@ -769,9 +825,8 @@ struct Catalogue {
 					std::string fi = seed.substr(F[i].beg, F[i].len), fj = seed.substr(F[j].beg, F[j].len);
 					std::string vi = a == 0 ? "0" : a == 1 ? specials[0] : ((!fi.empty() && fi[0] == '-') ? fi.substr(1) : "-" + fi);
 					std::string vj = b == 0 ? "0" : b == 1 ? specials[0] : ((!fj.empty() && fj[0] == '-') ? fj.substr(1) : "-" + fj);
-					std::string out = seed.substr(0, F[i].beg) + vi + seed.substr(F[i].beg + F[i].len, F[j].beg - F[i].beg - F[i].len) + vj +
-						seed.substr(F[j].beg + F[j].len);
-					emit("p" + drv::str(i) + "." + drv::str(j) + ":" + pn[a] + "." + pn[b], std::string("pair-") + pn[a] + "-" + pn[b], out);
+					emit("p" + drv::str(i) + "." + drv::str(j) + ":" + pn[a] + "." + pn[b], std::string("pair-") + pn[a] + "-" + pn[b],
+						PL().r(0, F[i].beg).l(vi).r(F[i].beg + F[i].len, F[j].beg).l(vj).r(F[j].beg + F[j].len, N));
 				}
 			}
 		}
@@ -779,19 +834,23 @@ struct Catalogue {
 			bytes(seed, f, &seen, false);
 	}
 
-	// byte-level catalogue at every offset in [0, limit): truncate here, flip bit 0, flip bit 7 (+ 0x00 / 0xff for binary)
+	// byte-level catalogue at every offset of the given ranges: truncate here, flip bit 0, flip bit 7 (+ byte values for binary)
 	void bytes(const std::string &seed, const std::function<void(const Mutation &)> &f, std::unordered_set<uint64_t> *seenp, bool binary,
 		const std::vector<std::pair<size_t, size_t> > *ranges = NULL) const
 	{
+		SeedHash H(seed);
 		std::unordered_set<uint64_t> own;
 		std::unordered_set<uint64_t> &seen = seenp ? *seenp : own;
-		if (!seenp) seen.insert(fnv(seed));
+		if (!seenp) seen.insert(H.whole());
 		Mutation m;
-		auto emit = [&](const std::string &id, const std::string &cls, const std::string &data) {
-			if (!seen.insert(fnv(data)).second) return;
-			m.id = id, m.cls = cls, m.data = data;
+		m.seed = &seed;
+		const size_t N = seed.size();
+		auto emit = [&](const std::string &id, const std::string &cls, const PL &pl) {
+			if (!seen.insert(H.hash(pl.v)).second) return;
+			m.id = id, m.cls = cls, m.pieces = pl.v;
 			f(m);
 		};
+		auto setb = [&](size_t o, unsigned char v) { return PL().r(0, o).l(std::string(1, (char)v)).r(o + 1, N); };
 		std::vector<std::pair<size_t, size_t> > all;
 		if (!ranges) { all.push_back(std::make_pair((size_t)0, seed.size())); ranges = &all; }
 		for (size_t ri = 0; ri < ranges->size(); ri++)
@@ -799,27 +858,20 @@ struct Catalogue {
 			for (size_t o = (*ranges)[ri].first; o < (*ranges)[ri].second && o < seed.size(); o++)
 			{
 				std::string oid = "b" + drv::str(o);
-				emit(oid + ":trunc", "truncate", seed.substr(0, o));
-				std::string t = seed;
-				t[o] = (char)(seed[o] ^ 0x01);
-				emit(oid + ":flip0", "bitflip", t);
-				t[o] = (char)(seed[o] ^ 0x80);
-				emit(oid + ":flip7", "bitflip", t);
+				unsigned char c = (unsigned char)seed[o];
+				emit(oid + ":trunc", "truncate", PL().r(0, o));
+				emit(oid + ":flip0", "bitflip", setb(o, c ^ 0x01));
+				emit(oid + ":flip7", "bitflip", setb(o, c ^ 0x80));
 				if (binary)
 				{
-					t[o] = 0;
-					emit(oid + ":set00", "byte-set", t);
-					t[o] = (char)0xff;
-					emit(oid + ":setff", "byte-set", t);
+					emit(oid + ":set00", "byte-set", setb(o, 0));
+					emit(oid + ":setff", "byte-set", setb(o, 0xff));
 					if (!thorough) continue;
-					t[o] = (char)0x7f;
-					emit(oid + ":set7f", "byte-set", t);
-					t[o] = (char)(seed[o] + 1);
-					emit(oid + ":inc", "byte-set", t);
-					t[o] = (char)(seed[o] - 1);
-					emit(oid + ":dec", "byte-set", t);
-					emit(oid + ":delbyte", "delete", seed.substr(0, o) + seed.substr(o + 1));
-					emit(oid + ":dupbyte", "duplicate", seed.substr(0, o + 1) + seed.substr(o));
+					emit(oid + ":set7f", "byte-set", setb(o, 0x7f));
+					emit(oid + ":inc", "byte-set", setb(o, (unsigned char)(c + 1)));
+					emit(oid + ":dec", "byte-set", setb(o, (unsigned char)(c - 1)));
+					emit(oid + ":delbyte", "delete", PL().r(0, o).r(o + 1, N));
+					emit(oid + ":dupbyte", "duplicate", PL().r(0, o + 1).r(o, N));
 				}
 			}
 		}
@@ -854,10 +906,13 @@ struct Runner {
 	uint64_t machinery_errors;
 	std::string heavy_mode;              // "thin" (default under ASan): heavy targets use every heavy_stride-th mutation; "only": run only heavy
 	size_t heavy_stride;                 // targets, full catalogue (the plain-flavour pass); "skip"; "full"
+	size_t global_stride, stride_min_fields;
 	Runner(drv::Report &r) : R(r), per_key(2), batch_cases(256), batch_bytes(8u << 20), machinery_errors(0)
 	{
 		heavy_mode = r.args.get("heavy", C12_ASAN ? "thin" : "full");
 		heavy_stride = (size_t)r.args.geti("heavy-stride", r.args.tier == "thorough" ? 12 : 48);
+		global_stride = (size_t)r.args.geti("stride", 1);      // --stride k: every k-th mutation of every target (quick-tier thinning)
+		stride_min_fields = (size_t)r.args.geti("stride-min", 0); // ... only for seeds with at least this many bytes
 		long b = r.args.geti("batch", 0);
 		if (b > 0) batch_cases = (size_t)b;
 		if (batch_cases > 4096) batch_cases = 4096;
@@ -989,6 +1044,7 @@ struct Runner {
 		if (!T0.heavy && heavy_mode == "only") return;
 		Target T = T0;
 		if (T.heavy && heavy_mode == "thin") T.stride = std::max(T.stride, heavy_stride);
+		if ((!T.heavy || heavy_mode != "thin") && global_stride > 1 && T.seed.size() >= stride_min_fields) T.stride = std::max(T.stride, global_stride);
 		if (T.heavy) batch_cases_now = 16; else batch_cases_now = batch_cases;
 		F.cpu_s = (T.heavy && C12_ASAN) ? 40 : 10;
 		// the seed itself (sanity: a valid export / transcript must be accepted, else the harness is wrong)
@@ -1025,9 +1081,9 @@ struct Runner {
 			if (!R.mine() || !R.selected(cid))
 				return;
 			Pending p;
-			p.id = m.id, p.cls = m.cls, p.data = m.data;
+			p.id = m.id, p.cls = m.cls, p.data = m.data();
+			bytes += p.data.size();
 			P.push_back(p);
-			bytes += m.data.size();
 			if (P.size() >= batch_cases_now || bytes >= batch_bytes)
 			{
 				if (R.out_of_time()) { stop = true; P.clear(); return; }
